@@ -72,6 +72,15 @@ fn agree(writer: &str, model: &str, imp: &str, case: &Case) -> Option<String> {
         return Some(format!("{} figures groups in the model answer, {} in the report", m.len(), i.len()));
     }
     let tol = tol_of(writer, case.precision);
+    // html: `J=n/d` is the exact global line percentage; the badge may be one below the model's
+    // only when that percentage is a whole number that the f64 computation just misses
+    let whole_pct = m
+        .iter()
+        .find_map(|t| t.strip_prefix("J="))
+        .and_then(|r| r.split_once('/'))
+        .map(|(n, d)| (n.parse::<u128>().unwrap_or(1), d.parse::<u128>().unwrap_or(0)))
+        .map(|(n, d)| d != 0 && n % d == 0)
+        .unwrap_or(false);
     for (mt, it) in m.iter().zip(i.iter()) {
         let (ma, ia) = (atoms(mt), atoms(it));
         if ma.len() != ia.len() {
@@ -97,7 +106,7 @@ fn agree(writer: &str, model: &str, imp: &str, case: &Case) -> Option<String> {
                 // integer that the exact value reaches
                 if mt.starts_with("B=") {
                     if let (Ok(a), Ok(b)) = (x.parse::<u64>(), y.parse::<u64>()) {
-                        if b + 1 == a {
+                        if b + 1 == a && whole_pct {
                             continue;
                         }
                     }
@@ -223,7 +232,12 @@ fn report_ofails(rep: &mut Report, ctx: &mut Ctx, case: &Case, writer: &str, ofa
             }
         }
         if let Some(id) = f.finding {
-            rep.count(&format!("finding.{}", id));
+            // a known defect shows up in a large share of the cases: count all, record three
+            let k = format!("finding.{}", id);
+            rep.count(&k);
+            if rep.distribution[&k] > 3 {
+                continue;
+            }
         }
         rep.fail("oracle", f.finding, what, case_json(&min, writer));
     }
@@ -245,8 +259,15 @@ fn disagreement(rep: &mut Report, ctx: &mut Ctx, case: &Case, writer: &str, why:
         });
     }
     let mut cj = case_json(&min, writer);
-    cj["model"] = json!(model);
-    cj["impl"] = json!(imp);
+    if do_shrink {
+        let o = observe(&ctx.env, &min, writer);
+        let m = run_model_named("gm_c13", &[request(&ctx.env, writer, &min)], &rep.workdir, "shrink");
+        cj["model"] = json!(m[0]);
+        cj["impl"] = json!(o.canon);
+    } else {
+        cj["model"] = json!(model);
+        cj["impl"] = json!(imp);
+    }
     rep.fail(
         "disagreement",
         None,
@@ -308,7 +329,7 @@ pub fn run(rep: &mut Report) {
         shrunk: BTreeMap::new(),
     };
     let mut rng = Rng::new(rep.seed ^ 0xC13);
-    let n = rep.budget(2_500, 10);
+    let n = rep.budget(2_000, 10);
     let html_every = 4;
     let mut reqs: Vec<String> = vec![];
     let mut pend: Vec<(usize, &'static str, String, bool)> = vec![]; // case index, writer, impl canon, oracle failed
@@ -330,7 +351,7 @@ pub fn run(rep: &mut Report) {
             if !o.ofails.is_empty() {
                 report_ofails(rep, &mut ctx, &case, w, &o.ofails, true);
             }
-            pend.push((cases.len(), w, o.canon, !o.ofails.is_empty()));
+            pend.push((cases.len(), w, o.canon, o.ofails.iter().any(|f| f.finding.is_none())));
             reqs.push(req);
         }
         cases.push(case);
@@ -362,7 +383,7 @@ pub fn run(rep: &mut Report) {
             if !o.ofails.is_empty() {
                 report_ofails(rep, &mut ctx, &case, w, &o.ofails, true);
             }
-            pend.push((cases.len(), w, o.canon, !o.ofails.is_empty()));
+            pend.push((cases.len(), w, o.canon, o.ofails.iter().any(|f| f.finding.is_none())));
             reqs.push(req);
         }
         cases.push(case);
